@@ -124,9 +124,8 @@ Fixpoint replace_entry (sel : string) (e : centry) (l : list centry) : list cent
 
 (* Returns the new registry, the selector of the leaf, and the re-pointings (previous latest selector of a
    re-registered object -> its new selector) *)
-Definition register_chain (reg : list centry) (d : dimport) (attr_names : list string) (chain : list pyobj)
+Definition do_one (d : dimport) (reg : list centry) (names : list string) (o : pyobj) (is_method : bool)
   : dres (list centry * string * list (string * string)) :=
-  let do_one := fun (reg : list centry) (names : list string) (o : pyobj) (is_method : bool) =>
     match obj_id o with
     | None => DErr "TypeError"
     | Some i =>
@@ -139,7 +138,10 @@ Definition register_chain (reg : list centry) (d : dimport) (attr_names : list s
         | Some e => if Nat.eqb (ce_obj e) i then DOk (replace_entry sel entry reg, sel, prev) else DErr "ValueError"
         | None => DOk (reg ++ [entry], sel, prev)
         end
-    end in
+    end.
+Definition register_chain (reg : list centry) (d : dimport) (attr_names : list string) (chain : list pyobj)
+  : dres (list centry * string * list (string * string)) :=
+  let do_one := do_one d in
   match rev chain, rev (removelast chain) with
   | leaf :: _, parent :: _ =>
       if is_func leaf && is_class parent then
@@ -152,7 +154,12 @@ Definition register_chain (reg : list centry) (d : dimport) (attr_names : list s
                 let sel := (csel ++ "." ++ last attr_names "")%string in
                 match find_obj i reg1 with
                 | Some _ => DOk (reg1, sel, rp)
-                | None => DOk (reg1 ++ [{| ce_sel := sel; ce_obj := i; ce_method := true; ce_src := Some (import_source d attr_names); ce_home := ("", "") |}], sel, rp)
+                | None =>
+                    (* _make_configurable (1713-1720): another object already registered under this selector *)
+                    match find_sel sel reg1 with
+                    | Some _ => DErr "ValueError"
+                    | None => DOk (reg1 ++ [{| ce_sel := sel; ce_obj := i; ce_method := true; ce_src := Some (import_source d attr_names); ce_home := ("", "") |}], sel, rp)
+                    end
                 end
             end
         end
@@ -193,6 +200,37 @@ Definition get_configurable (reg : list centry) (c : dctx) (selector : string) :
       end
   end.
 
+(* What a FAILED resolution leaves behind: _register (282-321) registers the method itself (as a plain
+   function, under <class selector>.<name>) before its class; when the class's selector is then found taken
+   by another object the statement fails with the method still registered. *)
+Definition failed_reg (reg : list centry) (c : dctx) (selector : string) : list centry :=
+  if negb (c_dynamic c) then reg else
+  let names := split_dot selector in
+  match tget (hd "" names) (c_table c) with
+  | None => reg
+  | Some (root, d) =>
+      match follow root (tl names) [] with
+      | None => reg
+      | Some chain =>
+          match rev chain, rev (removelast chain) with
+          | leaf :: _, parent :: _ =>
+              match obj_id leaf with
+              | Some i =>
+                  if is_func leaf && is_class parent && match find_obj i reg with None => true | Some _ => false end then
+                    match do_one d reg names leaf false, do_one d reg (removelast names) parent false with
+                    | DOk (reg1, _, _), DErr _ => reg1
+                    | _, _ => reg
+                    end
+                  else reg
+              | None => reg
+              end
+          | _, _ => reg
+          end
+      end
+  end.
+Definition with_reg (s : dstate) (reg : list centry) : dstate :=
+  {| ds_reg := reg; ds_store := ds_store s; ds_imports := ds_imports s; ds_dynamic_seen := ds_dynamic_seen s |}.
+
 (* ---- statements of one config text ---- *)
 Inductive dvalue := DVal (z : Z) | DRef (scopes : list string) (sel : string).
 Inductive dstmt :=
@@ -230,25 +268,25 @@ Fixpoint run_stmts (univ : list (string * pyobj)) (stmts : list dstmt) (s : dsta
           end
       | DBlock scope sel =>
           match get_configurable (ds_reg s) c sel with
-          | DErr e => (s, refs, c, Some e)
+          | DErr e => (with_reg s (failed_reg (ds_reg s) c sel), refs, c, Some e)
           | DOk (reg, _, rp) =>
               run_stmts univ rest {| ds_reg := reg; ds_store := ds_store s; ds_imports := ds_imports s; ds_dynamic_seen := ds_dynamic_seen s |} (retarget rp refs) c
           end
       | DBind scope sel param v =>
           (* the value is parsed first: a reference registers its target *)
           let rv := match v with
-                    | DVal z => DOk (ds_reg s, None, z, [])
+                    | DVal z => inr (ds_reg s, None, z, [])
                     | DRef _ rsel => match get_configurable (ds_reg s) c rsel with
-                                     | DErr e => DErr e
-                                     | DOk (reg, full, rp) => DOk (reg, Some full, 0%Z, rp)
+                                     | DErr e => inl (e, failed_reg (ds_reg s) c rsel)
+                                     | DOk (reg, full, rp) => inr (reg, Some full, 0%Z, rp)
                                      end
                     end in
           match rv with
-          | DErr e => (s, refs, c, Some e)
-          | DOk (reg1, rfull, z, rp1) =>
+          | inl (e, freg) => (with_reg s freg, refs, c, Some e)
+          | inr (reg1, rfull, z, rp1) =>
               let s1 := {| ds_reg := reg1; ds_store := ds_store s; ds_imports := ds_imports s; ds_dynamic_seen := ds_dynamic_seen s |} in
               match get_configurable reg1 c sel with
-              | DErr e => (s1, refs, c, Some e)
+              | DErr e => (with_reg s1 (failed_reg reg1 c sel), refs, c, Some e)
               | DOk (reg2, full, rp2) =>
                   let k := (scope, full) in
                   let d := match st_get k (ds_store s1) with Some d => d | None => [] end in
